@@ -10,8 +10,8 @@ UNITS = [em, wit]
 EXPLANATION = ("ONE kernel of C16, NOT the agreement with an exhaustive scan. Decided (Verus, verbatim `search` and `within_tolerance` of the edge map-matching plugin, any tree, coordinate, tolerance and unit, "
                "road-class filter and vehicle parameters): a match is a candidate of the r-tree that is admissible (road class, vehicle restrictions) AND within the tolerance measured on the ground (great-circle distance to the "
                "record's location, converted to the tolerance's unit with the real table), it is the FIRST admissible candidate in the order the tree yields, and every candidate before it is within the tolerance too; no match "
-               "means the candidates were exhausted without an admissible one or the first candidate beyond the tolerance came before any admissible one; without a tolerance nothing is rejected for distance; the vertex plugin's validate_tolerance (verbatim) accepts the matched vertex only if its great-circle distance, in the tolerance's unit, is below the tolerance. "
+               "means the candidates were exhausted without an admissible one or the first candidate beyond the tolerance came before any admissible one; without a tolerance nothing is rejected for distance; EdgeRtreeRecord::distance_2 (verbatim, f32 arithmetic as reals): the measure by which the tree orders its records is the squared coordinate distance from the query point to the record's LOCATION, the same location (the centroid of its geometry) that the tolerance is measured to; the vertex plugin's validate_tolerance (verbatim) accepts the matched vertex only if its great-circle distance, in the tolerance's unit, is below the tolerance. "
                "The pinned code compared the tree's squared difference of DEGREES with the tolerance in METRES (found by the witness, fixed in /repo bdc3795)")
 NOT_DECIDED = ("that the r-tree yields its records nearest-first and agrees with an exhaustive scan (rstar, a dependency); that an order by squared degrees agrees with an order by distance on the ground; the great-circle formula itself "
                "(transcendental functions: uninterpreted metres); the vertex plugin's nearest_vertex (rstar); that the other fields of the query are left unchanged (serde_json)")
-ASSUMPTIONS = ["A-REAL", "the r-tree iterator as an opaque sequence of records (R3-dyn)", "road-class / vehicle-restriction admissibility as uninterpreted verdicts per edge id (VehicleRestriction::valid itself: unit c04_frontier)"]
+ASSUMPTIONS = ["A-REAL (f64 and, for distance_2, f32)", "the r-tree iterator as an opaque sequence of records (R3-dyn)", "road-class / vehicle-restriction admissibility as uninterpreted verdicts per edge id (VehicleRestriction::valid itself: unit c04_frontier)"]
